@@ -114,9 +114,25 @@ class Pins:
         return Pins(pv, {norm(k): v for k, v in (facts or {}).items()}, entry)
 
 
+def _sort_ops(tree: ast.expr) -> ast.expr:
+    """operands of nested == / != in textual order again after aliases were expanded"""
+    for sub in ast.walk(tree):
+        if isinstance(sub, ast.Compare):
+            from .nform import sort_operands
+
+            return sort_operands(tree)  # type: ignore[return-value]
+    return tree
+
+
+def _canon(tree: ast.expr) -> ast.expr:
+    from .nform import canon_inplace
+
+    return canon_inplace(tree)
+
+
 def norm(text: str) -> str:
     """normal form of an expression given as text (sides of == are sorted)"""
-    tree = ast.parse(text, mode="eval").body
+    tree = _canon(ast.parse(text, mode="eval").body)
     if isinstance(tree, ast.Compare) and len(tree.ops) == 1 and isinstance(tree.ops[0], ast.Eq):
         a, b = sorted((ast.unparse(tree.left), ast.unparse(tree.comparators[0])))
         return f"{a} == {b}"
@@ -339,7 +355,7 @@ class Interp:
 
     def holds(self, node: ast.AST, cond: str | ast.expr) -> bool:
         """cond is definitely true in every state reaching node (vacuously true if unreachable)"""
-        tree = ast.parse(cond, mode="eval").body if isinstance(cond, str) else cond
+        tree = _canon(ast.parse(cond, mode="eval").body) if isinstance(cond, str) else cond
         for st in self.states(node):
             outcomes = self.eval_cond(tree, st.copy(), record=False)
             if not outcomes or any(not truth for _, truth in outcomes):
@@ -349,7 +365,7 @@ class Interp:
 
     def possible(self, node: ast.AST, cond: str | ast.expr) -> bool:
         """cond may be true in some state reaching node"""
-        tree = ast.parse(cond, mode="eval").body if isinstance(cond, str) else cond
+        tree = _canon(ast.parse(cond, mode="eval").body) if isinstance(cond, str) else cond
         for st in self.states(node):
             for _, truth in self.eval_cond(tree, st.copy(), record=False):
                 if truth:
@@ -357,7 +373,7 @@ class Interp:
         return False
 
     def expand(self, node: ast.expr, st: State) -> ast.expr:
-        return _simplify_update(_Expander(st.alias, self.renames).visit(copy.deepcopy(node)))
+        return _sort_ops(_simplify_update(_Expander(st.alias, self.renames).visit(copy.deepcopy(node))))
 
     def text(self, node: ast.expr, st: State) -> str:
         return ast.unparse(self.expand(node, st))
